@@ -12,14 +12,17 @@ Qed.
 Lemma de_strs_ser l : de_strs (ser_strs l) = Some l.
 Proof. unfold de_strs, ser_strs. apply all_some_map. reflexivity. Qed.
 
-Lemma de_deprecated_ser d : de_deprecated (ser_deprecated d) = Some d.
+Lemma de_deprecated_l_ser lz d : de_deprecated_l lz (ser_deprecated d) = Some d.
 Proof.
-  destruct d as [msg rep]. unfold de_deprecated, ser_deprecated. cbn [dep_message dep_replace].
+  destruct d as [msg rep]. unfold de_deprecated_l, ser_deprecated. cbn [dep_message dep_replace].
   change (alookup "message" [("message", YStr msg); ("replace", ser_strs rep)]) with (Some (YStr msg)).
   unfold with_default.
   change (alookup "replace" [("message", YStr msg); ("replace", ser_strs rep)]) with (Some (ser_strs rep)).
-  cbv beta iota. rewrite de_strs_ser. reflexivity.
+  cbv beta iota. change (ser_strs rep) with (YSeq (map YStr rep)) at 1. cbv beta iota.
+  change (YSeq (map YStr rep)) with (ser_strs rep). rewrite de_strs_ser. reflexivity.
 Qed.
+Lemma de_deprecated_ser d : de_deprecated (ser_deprecated d) = Some d.
+Proof. apply de_deprecated_l_ser. Qed.
 
 Lemma de_argtype_ser t : de_argtype (ser_argtype t) = Some t.
 Proof.
@@ -44,8 +47,10 @@ Proof. intros H. unfold alookup. cbn [lookup]. destruct (string_dec k k'); [cong
 Ltac look := repeat first [ rewrite alookup_cons_eq | rewrite alookup_cons_ne by discriminate
                           | (change (alookup _ []) with (@None yval)) ]; cbv beta iota.
 
+Lemma de_option_dep_l_ser lz d : de_option (de_deprecated_l lz) (ser_deprecated d) = Some (Some d).
+Proof. unfold de_option. rewrite de_deprecated_l_ser. reflexivity. Qed.
 Lemma de_option_dep_ser d : de_option de_deprecated (ser_deprecated d) = Some (Some d).
-Proof. unfold de_option. rewrite de_deprecated_ser. reflexivity. Qed.
+Proof. apply de_option_dep_l_ser. Qed.
 
 Lemma de_argument_ser a : de_argument (ser_argument a) = Some a.
 Proof.
@@ -83,13 +88,13 @@ Proof.
   destruct f as [k dep]. unfold de_field, ser_field. cbn [f_kind f_deprecated].
   rewrite filter_kind_entries, de_kind_ser.
   assert (H : with_default "deprecated" (ser_kind_entries k ++ ser_opt "deprecated" ser_deprecated dep) None
-                (de_option de_deprecated) = Some dep).
+                (de_option (de_deprecated_l true)) = Some dep).
   { unfold with_default.
     assert (Hn : forall tail, alookup "deprecated" (ser_kind_entries k ++ tail) = alookup "deprecated" tail).
     { intros tail. destruct k as [|[args me mu]|w|s|]; try destruct me; try destruct mu;
         cbn [ser_kind_entries app fn_args fn_method fn_must_use]; look; reflexivity. }
     rewrite Hn. destruct dep as [d|]; cbn [ser_opt]; look; [|reflexivity].
-    apply de_option_dep_ser. }
+    apply de_option_dep_l_ser. }
   rewrite H. reflexivity.
 Qed.
 
